@@ -90,6 +90,14 @@ func c19Rules(tier string) []Rule {
 			return c19FirstWins(w, id, "(*sched.Scheduler).addToNewNodeClaim")
 		}},
 
+		POST{ID: "C19.POST1", Fn: "@arg:(*sched.Scheduler).addToNewNodeClaim|^call sched\\.parallelizeUntil\\(|2", FromLit: `+^\(\*sched\.NodeClaim\)\.CanAdd\(sched\.NewNodeClaim\(.*\)#4 == nil$`,
+			Must: []string{`^store \^&local<\*sched\.NodeClaim> = sched\.NewNodeClaim\(`}, Excuse: []string{`-^\$0 < \^&local<int>$`},
+			Note: "a successful template evaluation is recorded unless a lower index (higher weight) already won: the first finisher does not shadow a heavier pool"},
+		POST{ID: "C19.POST2", Fn: "@arg:(*sched.Scheduler).addToInflightNode|^call sched\\.parallelizeUntil\\(|2", FromLit: `+^\(\*sched\.NodeClaim\)\.CanAdd\(\^\$0\.newNodeClaims\[\$0\], .*\)#4 == nil$`,
+			Must: []string{`^store \^\^\$0\.newNodeClaims\[\$0\] = \^\$0\.newNodeClaims\[\$0\]$`}, Excuse: []string{`-^\$0 < \^&local<int>$`}},
+		POST{ID: "C19.POST3", Fn: "@arg:(*sched.Scheduler).addToExistingNode|^call sched\\.parallelizeUntil\\(|2", FromLit: `+^\(\*sched\.ExistingNode\)\.CanAdd\(\^\$0\.existingNodes\[\$0\], .*\)#2 == nil$`,
+			Must: []string{`^store \^\^\$0\.existingNodes\[\$0\] = \^\$0\.existingNodes\[\$0\]$`}, Excuse: []string{`-^\$0 < \^&local<int>$`}},
+
 		// ---- price order
 		core.Custom{ID: "C19.PROV2", Kind: "PROV", Run: func(w *core.World, id string) []core.Result {
 			rs := core.InstrPresent(w, id, "PROV", "(cloudprovider.InstanceTypes).Truncate", `^return lo\.Slice\[\*cloudprovider\.InstanceType, cloudprovider\.InstanceTypes\]\(\(cloudprovider\.InstanceTypes\)\.OrderByPrice\(\$0, \$2\), 0, \$3\), nil$`, 1,
